@@ -39,8 +39,35 @@ def check(tr, hist, k, where):
                             f"{win} have {name}={want!r} (tolerance {tol:.3e})", {})
 
 
+def readmask_task(task):
+    """Statistics are read only at chosen times: every read mask over a position-coded stream (a tracker that buffers
+    updates lazily must still report the last k values whenever it is asked)."""
+    from ixai.utils.tracker import SlidingWindowTracker
+    _, k, L = task
+    n = 0
+    viol = []
+    try:
+        for mask in range(1 << L):
+            tr = SlidingWindowTracker(k)
+            hist = []
+            for t in range(L):
+                v = float(3 ** (t % 20) + t)
+                tr.update(v)
+                hist.append(v)
+                if mask >> t & 1 or t == L - 1:
+                    n += 1
+                    check(tr, hist, k, f"SlidingWindowTracker({k}) read after updates {[i + 1 for i in range(t + 1) if mask >> i & 1 or i == t]} "
+                                       f"of the stream {hist}")
+    except Exception as e:
+        v = e if isinstance(e, Violation) else choice.library_exception(e, f'for SlidingWindowTracker({k})')
+        viol.append((v.key, v.what, {}, ()))
+    return dict(task=list(task), transitions=n, states=1 << L, violations=viol)
+
+
 def run_task(task):
     from ixai.utils.tracker import SlidingWindowTracker
+    if task[0] == 'readmask':
+        return readmask_task(task)
     k, alphabet, L, coded = task
     n = [0]
     states = set()
@@ -88,6 +115,8 @@ def plan(tier):
     tasks.append((4, (1, -2), 14 if deep else 11, 23))
     tasks.append((2, (0.5, 1e9, -1e-3, 7), 8 if deep else 6, 13))
     tasks.append((5, (1, 0), 12, 31))
+    for k in (2, 3, 4):
+        tasks.append(('readmask', k, 3 * k + 1 if (deep or k < 4) else 11))
     tasks.append((2, (1e9, 1e9 + 0.1, 1e9 + 0.2), 6 if deep else 5, 7))      # large offset, small spread
     tasks.append((3, (1e9, 1e9 + 0.1, -1e9), 7 if deep else 6, 7))
     return tasks
